@@ -3,7 +3,7 @@
 use crate::model::*;
 use crate::refalg::{self, Adj, Arc, Dir};
 use graph_engine::algorithms::{AStarConfig, HeuristicFn};
-use graph_engine::{AllPathsConfig, CompareOp, Direction, GraphEngine, GraphError, PropertyValue, TraversalFilter, VariableLengthConfig};
+use graph_engine::{AllPathsConfig, CompareOp, Direction, EdgePattern, GraphEngine, GraphError, NodePattern, PathPattern, Pattern, PropertyValue, TraversalFilter, VariableLengthConfig};
 use nv_engine::{CaseCtx, Fail};
 use std::collections::{BTreeMap, BTreeSet};
 
@@ -255,6 +255,29 @@ fn check_query(eng: &GraphEngine, m: &Model, q: &Q, ctx: &mut CaseCtx) -> Result
         Q::Neigh { s, dir, ty, f } => q_neigh(eng, m, m.node_id_of(*s), *dir, *ty, *f, ctx),
         Q::AStar { s, t, dir, ty, weighted, defw, heur, hseed } => {
             q_astar(eng, m, m.node_id_of(*s), m.node_id_of(*t), *dir, *ty, *weighted, *defw, *heur, *hseed, ctx)
+        },
+        Q::Sweep { which, f } => {
+            if m.nodes.len() > 8 {
+                ctx.label("sweep: skipped (more than 8 nodes)");
+                return Ok(TRIVIAL);
+            }
+            ctx.label("sweep: every (start, end) pair of a small graph");
+            let mut nt = false;
+            for &a in &m.nodes {
+                for &b in &m.nodes {
+                    let o = match which % 4 {
+                        0 => q_path(eng, m, a, b, *f, ctx)?,
+                        1 => q_wpath(eng, m, a, b, ctx)?,
+                        2 => q_allpaths(eng, m, a, b, 0, ctx)?,
+                        _ => q_astar(eng, m, a, b, 0, 0, true, 0, 0, 0, ctx)?,
+                    };
+                    nt |= o.nontrivial;
+                }
+            }
+            Ok(QOut { nontrivial: nt })
+        },
+        Q::Match { s, t, endk, min, max, dir, ty, fe, lim } => {
+            q_match(eng, m, nv_engine::pick(*s, m.created.len()), nv_engine::pick(*t, m.created.len()), *endk, *min as usize, *max as usize, *dir, *ty, *fe, *lim, ctx)
         },
     }
 }
@@ -1079,4 +1102,142 @@ fn q_astar(
         },
     }
     Ok(QOut { nontrivial: nt })
+}
+
+// ------------------------------------------------------------------ match_pattern with a variable-length edge
+
+#[allow(clippy::too_many_arguments)]
+fn q_match(
+    eng: &GraphEngine,
+    m: &Model,
+    si: usize,
+    ti: usize,
+    endk: u8,
+    min: usize,
+    max: usize,
+    dir: u8,
+    ty: u8,
+    fe: u8,
+    lim: u8,
+    ctx: &mut CaseCtx,
+) -> Result<QOut, Fail> {
+    ctx.label("q: match_pattern (variable length)");
+    let (sid, tid) = (m.created[si], m.created[ti]);
+    let limit = match lim % 3 {
+        0 => 1000usize,
+        1 => 1,
+        _ => 3,
+    };
+    let start = NodePattern::new().variable("a").where_eq("i", PropertyValue::Int(si as i64));
+    let mut ep = EdgePattern::new().variable("p").direction(direction_of(dir)).variable_length(min, max);
+    if let Some(t) = ty_opt(ty) {
+        ep = ep.edge_type(t);
+    }
+    ep = match fe {
+        0 => ep,
+        1 => ep.where_eq(FLAG, PropertyValue::Bool(true)),
+        2 => ep.where_cond(FLAG, CompareOp::Ne, PropertyValue::Bool(true)),
+        3 => ep.where_eq(FLAG, PropertyValue::Bool(false)),
+        4 => ep.where_cond(WPROP, CompareOp::Le, PropertyValue::Int(2)),
+        _ => ep.where_cond(WPROP, CompareOp::Gt, PropertyValue::Float(1.0)),
+    };
+    let end = match endk % 3 {
+        0 => NodePattern::new().variable("b"),
+        1 => NodePattern::new().variable("b").where_eq(FLAG, PropertyValue::Bool(true)),
+        _ => NodePattern::new().variable("b").where_eq("i", PropertyValue::Int(ti as i64)),
+    };
+    let mut pat = Pattern::new(PathPattern::new(start, ep, end));
+    if lim % 3 != 0 {
+        pat = pat.limit(limit);
+    }
+    let call = format!(
+        "match_pattern((a i={si} [node {sid}])-[p type {:?} *{min}..{max} dir {} edge-cond {fe}]-(b end-kind {} [node {tid}]), limit {limit})",
+        ty_opt(ty),
+        dir % 3,
+        endk % 3
+    );
+    let scale = m.scale;
+    let edge_ok = |e: &MEdge| ty_ok(e, ty) && efilt_ok(e, fe, scale);
+    let end_ok = |v: u64| match endk % 3 {
+        0 => true,
+        1 => m.nflag[&v] == 1,
+        _ => v == tid,
+    };
+    let d = refalg::dir_of(dir);
+    let mut want: BTreeSet<(Vec<u64>, Vec<u64>)> = BTreeSet::new();
+    if let Some(s) = m.idx(sid) {
+        let adj = refalg::adjacency(m, d, &edge_ok, scale);
+        let Some(all) = refalg::simple_paths_from(&adj, s, min, max.min(20), 30_000) else {
+            ctx.label("match_pattern: skipped, enumeration too large");
+            return Ok(TRIVIAL);
+        };
+        if min == 0 && end_ok(sid) {
+            want.insert((vec![sid], vec![]));
+        }
+        for p in &all {
+            let ids = ids_of(m, p);
+            if end_ok(*ids.0.last().unwrap()) {
+                want.insert(ids);
+            }
+        }
+    }
+    let r = match eng.match_pattern(&pat) {
+        Ok(r) => r,
+        Err(e) => {
+            ctx.fail("match_pattern:unexpected-error", format!("{call} = Err({e})"))?;
+            return Ok(TRIVIAL);
+        },
+    };
+    let mut got: Vec<(Vec<u64>, Vec<u64>)> = Vec::new();
+    for mt in &r.matches {
+        let Some(p) = mt.get_path("p") else {
+            ctx.fail("match_pattern:binding", format!("{call}: a match has no path bound to p: {:?}", mt.bindings.keys().collect::<Vec<_>>()))?;
+            continue;
+        };
+        let (a, b) = (mt.get_node("a").map(|n| n.id), mt.get_node("b").map(|n| n.id));
+        if a != Some(sid) || b != p.nodes.last().copied() || p.nodes.first() != Some(&sid) {
+            ctx.fail("match_pattern:binding", format!("{call}: bindings a={a:?} b={b:?} do not agree with the bound path {p:?}"))?;
+        }
+        got.push((p.nodes.clone(), p.edges.clone()));
+    }
+    let got_set: BTreeSet<&(Vec<u64>, Vec<u64>)> = got.iter().collect();
+    if got_set.len() != got.len() {
+        ctx.fail("match_pattern:duplicate-match", format!("{call} returned {} matches of which only {} are distinct", got.len(), got_set.len()))?;
+    }
+    if got.len() > limit {
+        // the match limit is not part of this property (observed: the result can exceed `limit` by up to the
+        // degree of the last expanded node); counted, not asserted
+        ctx.label("match_pattern: more matches than the limit returned (not asserted here)");
+    }
+    for p in &got_set {
+        if !want.contains(*p) {
+            let hops = p.1.len();
+            let sig = if hops < min || hops > max {
+                "match_pattern:hop-bounds"
+            } else if walk_structure(m, &p.0, &p.1, sid, *p.0.last().unwrap_or(&sid)).is_err() {
+                "match_pattern:not-a-walk"
+            } else {
+                "match_pattern:invalid-path"
+            };
+            ctx.fail(sig, format!("{call} bound p = {p:?} ({hops} hops), which is not a qualifying path (reference has {} paths)", want.len()))?;
+        }
+    }
+    if got.len() < limit && want.len() < limit {
+        for p in &want {
+            if !got_set.contains(p) {
+                // categorical feature: a path over the same node sequence (other parallel edges) was returned
+                let twin = got_set.iter().any(|g| g.0 == p.0);
+                let sig = if twin { "match_pattern:missing-path:parallel-edge-twin-returned" } else { "match_pattern:missing-path" };
+                ctx.fail(sig, format!("{call} returned {} matches but omits {p:?} ({} hops); reference has {} paths", got.len(), p.1.len(), want.len()))?;
+                break;
+            }
+        }
+    } else {
+        ctx.label("match_pattern: limit reached (validity only)");
+    }
+    if !want.is_empty() {
+        ctx.label("match_pattern: non-empty result");
+    }
+    let lens: BTreeSet<usize> = want.iter().map(|p| p.1.len()).collect();
+    Ok(QOut { nontrivial: lens.len() >= 2 && lens.iter().any(|l| *l >= 2) })
 }
